@@ -371,16 +371,30 @@ func init() {
 	intrinsics["internal/bytealg.CompareString"] = cmp
 }
 
-// sync.Pool: no pooling (Get calls New, Put drops the value).
+// sync.Pool: a last-in-first-out free list per pool (Get returns what was Put
+// last, else calls New), so that state left in pooled objects is seen by the
+// next user, as it can be in a real run.
 func init() {
-	intrinsics["(*sync.Pool).Get"] = func(e *Engine, fr *frame, pos token.Pos, a []Value) Value {
-		p, ok := a[0].(*Value)
+	poolOf := func(e *Engine, recv Value) (*Value, Struct) {
+		p, ok := recv.(*Value)
 		if !ok || p == nil {
-			panic(unsupported("sync.Pool.Get on an unexpected receiver"))
+			panic(unsupported("sync.Pool method on an unexpected receiver"))
 		}
 		st, ok := (*p).(Struct)
 		if !ok || len(st) == 0 {
 			panic(unsupported("sync.Pool layout"))
+		}
+		if e.pools == nil {
+			e.pools = map[*Value][]Value{}
+		}
+		return p, st
+	}
+	intrinsics["(*sync.Pool).Get"] = func(e *Engine, fr *frame, pos token.Pos, a []Value) Value {
+		p, st := poolOf(e, a[0])
+		if free := e.pools[p]; len(free) > 0 {
+			v := free[len(free)-1]
+			e.pools[p] = free[:len(free)-1]
+			return v
 		}
 		newFn := st[len(st)-1]
 		if isNilVal(newFn) {
@@ -388,45 +402,9 @@ func init() {
 		}
 		return e.call(fr, pos, newFn, nil)
 	}
-	intrinsics["(*sync.Pool).Put"] = func(e *Engine, _ *frame, _ token.Pos, a []Value) Value { return nil }
-}
-
-// Streaming MD5 (md5.New / Write / Sum / Reset): the bytes written are
-// accumulated per digest object and hashed by the same model as md5.Sum.
-func init() {
-	acc := func(e *Engine, recv Value) *Value {
-		p, ok := recv.(*Value)
-		if !ok || p == nil {
-			panic(unsupported("md5 digest method on an unexpected receiver"))
-		}
-		if e.md5Acc == nil {
-			e.md5Acc = map[*Value][]Value{}
-		}
-		return p
-	}
-	intrinsics["(*crypto/md5.digest).Reset"] = func(e *Engine, _ *frame, _ token.Pos, a []Value) Value {
-		e.md5Acc[acc(e, a[0])] = nil
+	intrinsics["(*sync.Pool).Put"] = func(e *Engine, _ *frame, _ token.Pos, a []Value) Value {
+		p, _ := poolOf(e, a[0])
+		e.pools[p] = append(e.pools[p], a[1])
 		return nil
 	}
-	intrinsics["(*crypto/md5.digest).Write"] = func(e *Engine, _ *frame, _ token.Pos, a []Value) Value {
-		p := acc(e, a[0])
-		el := e.sliceElems(a[1])
-		e.md5Acc[p] = append(append([]Value(nil), e.md5Acc[p]...), el...)
-		return Tuple{term.Const(64, uint64(len(el))), Iface{}}
-	}
-	intrinsics["(*crypto/md5.digest).Sum"] = func(e *Engine, fr *frame, pos token.Pos, a []Value) Value {
-		p := acc(e, a[0])
-		msg := append([]Value{}, e.md5Acc[p]...)
-		d := md5Sum(e, fr, pos, []Value{msg})
-		out := append([]Value{}, e.sliceElems(a[1])...)
-		switch dv := d.(type) {
-		case Array:
-			out = append(out, dv...)
-		default:
-			panic(unsupported(fmt.Sprintf("md5 model returned %T", d)))
-		}
-		return out
-	}
-	intrinsics["(*crypto/md5.digest).Size"] = func(e *Engine, _ *frame, _ token.Pos, a []Value) Value { return term.Const(64, 16) }
-	intrinsics["(*crypto/md5.digest).BlockSize"] = func(e *Engine, _ *frame, _ token.Pos, a []Value) Value { return term.Const(64, 64) }
 }
